@@ -26,6 +26,7 @@ type C20Task struct {
 	File  lib.FileSpec `json:"file"`
 	Segs  []int        `json:"segs,omitempty"`
 	IdKey int          `json:"id_key"` // dec: which real key of the file opens it
+	After string       `json:"after,omitempty"` // enc: what the caller does after Close: "" | "close" (a second Close, as defer + explicit Close give) | "close-write" (and a Write after that); legal, reports an error, must touch nobody else
 }
 
 type C20Plan struct {
@@ -56,7 +57,7 @@ func (C20) Runs(tier string) int {
 func (C20) Meta() core.Meta {
 	return core.Meta{
 		Level: "exploration",
-		Rule: "sched case = 2..8 tasks (Encrypt or Decrypt, own plaintext/tape/destination/source) sharing ONE recipient and ONE identity object per key; exactly one task runs at a time and every seam call (rand.Read before and after the draw, dst.Write, src.Read) is a yield at which the plan's PRNG-chosen schedule decides who continues; oracle: each task's output bytes / plaintext equal what the same task yields alone with fresh objects, and afterwards every decrypt task repeated alone with the SHARED objects still gives that result (nothing left behind). sched-fine case = the same with 2..4 tasks in a binary built from a scratch copy of the tree in which cmd/astyield inserted a yield before every statement of age.go, primitives.go, x25519.go, scrypt.go, agessh/agessh.go, internal/stream, internal/format and armor (718 points): statement-granular, still replayable schedules. race case = 2..32 free-running goroutines (GOMAXPROCS 2/4/16, start barrier, Gosched perturbation from the plan) doing Encrypt+Decrypt over the same shared objects in a -race build; any race report is a violation, results must round-trip. Non-trivial = at least one task switch between two tasks using the same key object; distinct = distinct task-switch sequences (sched) / distinct (goroutines, procs, seed) (race).",
+		Rule: "sched case = 2..8 tasks (Encrypt or Decrypt, own plaintext/tape/destination/source; a third of the encrypting callers close their writer a second time, or also write after that, with a yield in between) sharing ONE recipient and ONE identity object per key; exactly one task runs at a time and every seam call (rand.Read before and after the draw, dst.Write, src.Read) is a yield at which the plan's PRNG-chosen schedule decides who continues; oracle: each task's output bytes / plaintext equal what the same task yields alone with fresh objects, and afterwards every decrypt task repeated alone with the SHARED objects still gives that result (nothing left behind). sched-fine case = the same with 2..4 tasks in a binary built from a scratch copy of the tree in which cmd/astyield inserted a yield before every statement of age.go, primitives.go, x25519.go, scrypt.go, agessh/agessh.go, internal/stream, internal/format and armor (718 points): statement-granular, still replayable schedules. race case = 2..32 free-running goroutines (GOMAXPROCS 2/4/16, start barrier, Gosched perturbation from the plan) doing Encrypt+Decrypt over the same shared objects in a -race build; any race report is a violation, results must round-trip. Non-trivial = at least one task switch between two tasks using the same key object; distinct = distinct task-switch sequences (sched) / distinct (goroutines, procs, seed) (race).",
 		Assumptions: []string{"sched stage: code between two seam calls runs atomically; the sched-fine stage removes that limit for the library's own statements (not for the standard library or x/crypto below them)", "the sched-fine stage runs the library with inserted yield calls: the rewritten copy is checked to build, and its outputs are compared with runs of the same binary alone", "race stage is NOT schedule-controlled (it is the detector the property names); its replay re-runs the workload and is not exactly repeatable", "the race detector reports no false positives"},
 		Real:        []string{"filippo.io/age Encrypt/Decrypt", "X25519/scrypt/ssh-ed25519/ssh-rsa recipients and identities shared between tasks", "internal/stream"},
 		Stub:        []string{"task scheduler (baton passing)", "per-task tape behind one routed crypto/rand.Reader", "per-task destination and source"},
@@ -78,6 +79,9 @@ func (C20) Generate(r *core.RNG, tier string, idx uint64) interface{} {
 			t.File.PSeed = r.U64() % 1000
 			t.File.PLen = r.Pick(0, 1, 100, 5000, 65536, 70000)
 			t.File.Recips = c20Recips(r)
+			if r.Chance(1, 3) {
+				t.After = "close"
+			}
 			p.Tasks = append(p.Tasks, t)
 		}
 		return p
@@ -98,6 +102,9 @@ func (C20) Generate(r *core.RNG, tier string, idx uint64) interface{} {
 		t.File.Recips = c20Recips(r)
 		t.Segs = lib.GenSegs(r, t.File.PLen)
 		t.IdKey = r.Intn(8)
+		if t.Op == "enc" && r.Chance(1, 3) {
+			t.After = []string{"close", "close-write"}[r.Intn(2)]
+		}
 		p.Tasks = append(p.Tasks, t)
 	}
 	m := r.Range(5, 120)
@@ -381,6 +388,14 @@ func (e C20) Execute(plan interface{}, c *core.Ctx) *core.Verdict {
 					if err := w.Close(); err != nil {
 						anyErr = true
 					}
+					if t.After != "" {
+						y("caller: between Close and the deferred Close")
+						w.Close()
+						if t.After == "close-write" {
+							y("caller: after the second Close")
+							w.Write([]byte("late"))
+						}
+					}
 				}
 				together[i] = outcome{d.Data, fmt.Sprint(anyErr)}
 			} else {
@@ -557,6 +572,10 @@ func (e C20) execRaceOnce(p *C20Plan, c *core.Ctx) *core.Verdict {
 				if err := w.Close(); err != nil {
 					errs[i] = "Close: " + err.Error()
 					return
+				}
+				if t.After != "" {
+					runtime.Gosched()
+					w.Close()
 				}
 				ks := t.File.Keys()
 				k := ks[g.Intn(len(ks))]
